@@ -20,6 +20,7 @@ type majCfg struct {
 	Random   bool
 	ZVals    []float64
 	ChoseAll bool
+	Reverse  bool // list choseToMake (and knownAlternatives) in descending id order
 }
 
 func majRequest(cfg majCfg) M {
@@ -40,6 +41,12 @@ func majRequest(cfg majCfg) M {
 		}
 		ka = append(ka, alt(ids6[i], cv))
 		chose = append(chose, ids6[i])
+	}
+	if cfg.Reverse {
+		for i, j := 0, len(chose)-1; i < j; i, j = i+1, j-1 {
+			chose[i], chose[j] = chose[j], chose[i]
+			ka[i], ka[j] = ka[j], ka[i]
+		}
 	}
 	zv := map[string]float64{}
 	for j := 0; j < m; j++ {
